@@ -316,19 +316,25 @@ var verifC07Two []parser.SelectQuery
 var verifC07TwoSpec = []struct {
 	src                                  string
 	desc1, nullsFirst1, desc2, nullsFirst2 bool
+	idCol                                int  // position of id in the select list
+	mFirst                               bool // the first sort key is m, the second k
 }{
-	{"select id, k, m from t order by k, m", false, true, false, true},
-	{"select id, k, m from t order by k desc, m", true, false, false, true},
-	{"select id, k, m from t order by k nulls last, m desc", false, false, true, false},
-	{"select id, k, m from t order by k desc nulls first, m desc nulls first", true, true, true, true},
+	{"select id, k, m from t order by k, m", false, true, false, true, 0, false},
+	{"select id, k, m from t order by k desc, m", true, false, false, true, 0, false},
+	{"select id, k, m from t order by k nulls last, m desc", false, false, true, false, 0, false},
+	{"select id, k, m from t order by k desc nulls first, m desc nulls first", true, true, true, true, 0, false},
 	// DISTINCT after an analytic function cached per-cell sort keys, then ORDER BY
-	{"select distinct id, k, m, count(*) over (partition by k) from t order by k, m", false, true, false, true},
+	{"select distinct id, k, m, count(*) over (partition by k) from t order by k, m", false, true, false, true, 0, false},
 	// the same with duplicate rows to merge: only k is selected (checked separately below)
-	{"select distinct k, count(*) over (partition by k) from t order by k", false, true, false, true},
+	{"select distinct k, count(*) over (partition by k) from t order by k", false, true, false, true, 0, false},
 	// WITH TIES: exactly the rows whose key ties with the first one (an integer ties with the equal float)
-	{"select id, k, m from t order by k limit 1 with ties", false, true, false, true},
+	{"select id, k, m from t order by k limit 1 with ties", false, true, false, true, 0, false},
 	// sort keys that are expressions outside the select list, next to an analytic function
-	{"select id, k, m, rank() over (order by k) from t order by k + 0, m + 0", false, true, false, true},
+	{"select id, k, m, rank() over (order by k) from t order by k + 0, m + 0", false, true, false, true, 0, false},
+	// DISTINCT that merges nothing re-lays the records in select-list order (different from the table's)
+	// after an analytic function cached sort keys per table column; then ORDER BY
+	{"select distinct m, k, id, row_number() over (order by id desc) from t order by m, k", false, true, false, true, 2, true},
+	{"select distinct k, id, m, row_number() over (order by id desc) from t order by k desc, m", true, false, false, true, 1, false},
 }
 
 func VerifC07Setup2() {
@@ -464,16 +470,24 @@ func VerifC07TwoKeys() {
 	seen := make([]bool, n)
 	prev := -1
 	for i := 0; i < view.RecordLen() && i < n; i++ {
-		id := int(view.RecordSet[i][0][0].(*value.Integer).Raw())
+		id := int(view.RecordSet[i][sp.idCol][0].(*value.Integer).Raw())
 		verifAssert("row comes from the input, once", id >= 0 && id < n && !seen[id])
 		if id < 0 || id >= n {
 			return
 		}
 		seen[id] = true
 		if prev >= 0 {
-			c := cmp(kn[prev], kn[id], kv[prev], kv[id], sp.desc1, sp.nullsFirst1)
-			if c == 0 {
-				c = cmp(mn[prev], mn[id], mv[prev], mv[id], sp.desc2, sp.nullsFirst2)
+			c := 0
+			if sp.mFirst {
+				c = cmp(mn[prev], mn[id], mv[prev], mv[id], sp.desc1, sp.nullsFirst1)
+				if c == 0 {
+					c = cmp(kn[prev], kn[id], kv[prev], kv[id], sp.desc2, sp.nullsFirst2)
+				}
+			} else {
+				c = cmp(kn[prev], kn[id], kv[prev], kv[id], sp.desc1, sp.nullsFirst1)
+				if c == 0 {
+					c = cmp(mn[prev], mn[id], mv[prev], mv[id], sp.desc2, sp.nullsFirst2)
+				}
 			}
 			verifAssert("adjacent rows in lexicographic order", c <= 0)
 		}
